@@ -244,6 +244,10 @@ func c12Units(tier string) []hx.Unit {
 			// thorough: two preemptions, except for histories of three outcomes with two concurrent requests (up to
 			// 70 k executions per unit at bound 2, 2600 such units), which keep one
 			heavy := len(seq) > 2 && len(rs) > 1
+			if len(rs) == 2 && (rs[0] == "rest" || rs[1] == "rest") && (rs[0] == "register" || rs[1] == "register") {
+				// a forwarded registration next to a registration round: 3-4.6 M executions per unit at bound 2
+				heavy = true
+			}
 			if tier == "thorough" && !heavy {
 				u.Bound = 2
 			}
@@ -448,7 +452,7 @@ func init() {
 	hx.Register(&hx.Prop{
 		ID:    "C12",
 		Title: "The block relay keeps answering whatever the config source does",
-		Rule: "for every sequence of 2 fetch outcomes (thorough: also every sequence of 3 over five representative outcomes) over {doc A, doc B, doc U (one validator unresolvable), doc R (a relay address that is no URL), error, malformed, empty, '{}', 'null'; and, in listed combinations, a legacy document whose fee recipient is one byte long} (the first consumed by the constructor) and every set of 1-2 concurrent requests over {lookup v1, lookup v2, auction v1, auction v2, registration round, forwarded REST registration}: all interleavings of the refresher and the request goroutines on the real blockrelay service within the preemption bound (quick 1, thorough 2; thorough keeps 1 for three-outcome histories with two concurrent requests), followed by a further refresh, lookups and bid requests (as a beacon node makes them) for both validators; " +
+		Rule: "for every sequence of 2 fetch outcomes (thorough: also every sequence of 3 over five representative outcomes) over {doc A, doc B, doc U (one validator unresolvable), doc R (a relay address that is no URL), error, malformed, empty, '{}', 'null'; and, in listed combinations, a legacy document whose fee recipient is one byte long} (the first consumed by the constructor) and every set of 1-2 concurrent requests over {lookup v1, lookup v2, auction v1, auction v2, registration round, forwarded REST registration}: all interleavings of the refresher and the request goroutines on the real blockrelay service within the preemption bound (quick 1, thorough 2; thorough keeps 1 for three-outcome histories with two concurrent requests and for a forwarded registration next to a registration round), followed by a further refresh, lookups and bid requests (as a beacon node makes them) for both validators; " +
 			"oracle: every call returns, no goroutine blocked, final lookups answer from the last good document (fallback if none); non-trivial = at least one contended scheduling point; distinct = distinct request-result vectors",
 		Assumptions: []string{
 			"RWMutex has Go's writer preference (a pending writer blocks new readers)",
